@@ -93,10 +93,21 @@ func defParamCount(call *ssa.Call) int {
 
 func init() {
 	// vxNativeFn(initFn, name string) vm.NativeFunction
+	// vxNativeOf(initFn string, class *value.Class, name string): same, the class is only used natively
+	vxAPI["vxNativeOf"] = func(ex *Exec, fr *Frame, fn *ssa.Function, args []Value, site ssa.Instruction) Value {
+		return vxAPI["vxNativeFn"](ex, fr, fn, []Value{args[0], args[2]}, site)
+	}
 	vxAPI["vxNativeFn"] = func(ex *Exec, fr *Frame, fn *ssa.Function, args []Value, site ssa.Instruction) Value {
 		initName, name := argString(ex, args[0]), argString(ex, args[1])
 		var initFn *ssa.Function
+		if fr != nil && fr.fn != nil && fr.fn.Pkg != nil {
+			// the harness's own package first (several packages have an initMutex, ...)
+			initFn = fr.fn.Pkg.Func(initName)
+		}
 		for _, pkg := range ex.P.Prog.AllPackages() {
+			if initFn != nil {
+				break
+			}
 			if !strings.Contains(pkg.Pkg.Path(), "elk-language/elk") {
 				continue
 			}
